@@ -4,7 +4,7 @@ from . import sched_run
 LEAN_TARGETS = ['DawgieVerif.Model.SchedIO']
 TRUSTED = sched_run.TRUSTED
 MANIFEST = dict(
-    text='Lean theorems over Model/Sched.lean, for every history: prune_keep_is_live / prune_is_model (Props/C04Gen: the filter of schedule._prune regenerated from its AST on every run is the model's Node.live), que_exact (the queue holds exactly the nodes with pending work, executing work or running status), idle_views (nothing pending and nothing in flight => queue, view_todo and view_doing are empty), runnable_released (a pending unit that is not itself executing and whose ancestors are idle is released by the next dispatch), no_deadlock (acyclic graph, something pending, nothing executing => the next dispatch releases something), quiesces (acyclic feedback-free graph of depth R, any conforming history, workers that always answer with ANY outcome and ANY values reported new: after answering what is in flight and R+1 further rounds of dispatch+answers nothing is pending, executing, in flight or queued; proved by induction on rank). Invariant Inv (6 clauses) proved by induction over arbitrary op lists. Tied by correspondence; the monitor checks the real que/view_todo/view_doing at every idle state, every runnable unit at every dispatch, and drives every history to quiescence with always-answering workers.',
+    text='Lean theorems over Model/Sched.lean, for every history: prune_keep_is_live / prune_is_model (Props/C04Gen: the filter of schedule._prune regenerated from its AST on every run is Node.live of the model), que_exact (the queue holds exactly the nodes with pending work, executing work or running status), idle_views (nothing pending and nothing in flight => queue, view_todo and view_doing are empty), runnable_released (a pending unit that is not itself executing and whose ancestors are idle is released by the next dispatch), no_deadlock (acyclic graph, something pending, nothing executing => the next dispatch releases something), quiesces (acyclic feedback-free graph of depth R, any conforming history, workers that always answer with ANY outcome and ANY values reported new: after answering what is in flight and R+1 further rounds of dispatch+answers nothing is pending, executing, in flight or queued; proved by induction on rank). Invariant Inv (6 clauses) proved by induction over arbitrary op lists. Tied by correspondence; the monitor checks the real que/view_todo/view_doing at every idle state, every runnable unit at every dispatch, and drives every history to quiescence with always-answering workers.',
     note='quiesces assumes no feedback references (a fed-back new value legitimately re-triggers its consumer for ever) and that rounds are "tick, then every unit in flight answered"; other fair schedules are covered by no_deadlock + idle_views. The harness also drives every history to quiescence on the real code. Waiter satisfaction is C12. Trusted base as C01.',
     technique='Lean 4 proof: 6-clause invariant by induction over operation histories, well-founded minimal-element argument + differential correspondence',
     design='7/C04',
